@@ -226,14 +226,24 @@ theorem wfMeta_repr (m : Meta) (h : WfMeta m) : ReprData m.data :=
 theorem compress_flag (f : Bool) : (Flags.fromArg (Flags.toArg ⟨f, true⟩)).compress = true := by
   cases f <;> decide
 
-/-- **compressed round trip** for any codec -/
+/-- **compressed encoding, any range lists**, for any codec: the blob decodes to the meta with
+every range list compacted (up to the order of the groups) -/
 theorem parseWith_compressed (c : Codec) (m : Meta) (hv : m.version = SET_CLUSTER_API_VERSION)
     (he : m.epoch ≤ u64Max) (hf : m.flags.compress = true) (hr : ReprData m.data) :
-    ∃ m', parseWith c.dec (m.toCompressedArgs c.enc) = .ok (m', true) ∧ MetaEquiv m' m := by
+    ∃ m', parseWith c.dec (m.toCompressedArgs c.enc) = .ok (m', true) ∧ MetaEquiv m' m.compacted := by
   obtain ⟨d', hd, hc, hl, hp, hcfg⟩ := c.dec_enc m.data hr
-  refine ⟨⟨m.version, m.epoch, m.flags, d'.cluster, d'.local, d'.peer, d'.config⟩, ?_, rfl, rfl, rfl, hc, hl, hp, hcfg⟩
+  refine ⟨⟨m.version, m.epoch, m.flags, d'.cluster, d'.local.compacted, d'.peer.compacted, d'.config⟩, ?_,
+    rfl, rfl, rfl, hc, hl.map _, hp.map _, hcfg⟩
   unfold parseWith Meta.toCompressedArgs
   have hfl : Flags.fromArg m.flags.toArg = m.flags := flags_rt _
   simp only [hv, bne_self_eq_false, Bool.false_eq_true, if_false, parseUnsigned_decimal _ he, hfl, hf, if_true, hd]
+
+/-- what `BdMeta` gives the codec hypothesis -/
+theorem bdMap_repr (nm : NodeMap) (h : BdMap nm) : ReprMap nm :=
+  ⟨h.1, fun p hp sr hsr => ⟨((h.2 p hp).2.2 sr hsr).1.2, ((h.2 p hp).2.2 sr hsr).2⟩⟩
+
+theorem bdMeta_repr (m : Meta) (h : BdMeta m) : ReprData m.data :=
+  ⟨h.2.2.2.1, bdMap_repr _ h.2.2.2.2.1, bdMap_repr _ h.2.2.2.2.2.1, h.2.2.2.2.2.2.1, h.2.2.2.2.2.2.2.1,
+    h.2.2.2.2.2.2.2.2.1, h.2.2.2.2.2.2.2.2.2.1⟩
 
 end Um.Proto
